@@ -123,7 +123,7 @@ def _predecessors(db) -> dict:
     return out
 
 
-def build_queries(db, tier: str) -> dict:
+def build_queries(db, tier: str, extra: tuple = ()) -> dict:
     names = db.device_names()
     feats = set((db.defaults.get("features") or {}).keys())
     subs = set()
@@ -140,7 +140,7 @@ def build_queries(db, tier: str) -> dict:
         alias = [n for n in names if db.devices[n].alias]
         multi = [n for n in names if len(db.devices[n].revisions) >= 3]
         pick = [names[0], names[len(names) // 2], names[-1]] + alias[:1] + [db.devices[a].alias for a in alias[:1]] + multi[:1]
-        pick = list(dict.fromkeys(pick))
+        pick = list(dict.fromkeys(pick + [e for e in extra if e in db.devices]))
     else:
         pick = list(names)
     values = []
@@ -331,10 +331,10 @@ def judge(o: Oracle, res: dict, want: dict, sub_start: str = "starts_normally", 
     if res["timeout"]:
         o.fail(sub_start, "hang", "child did not finish; phase %s; stderr: %s" % ((out or {}).get("phase"), res["stderr"][-400:]))
         return False
-    if killed:
-        if res["rc"] != 77:
-            raise HarnessError("child that was to be killed at a sync point exited with %r: %s" % (res["rc"], res["stderr"][-600:]))
-        return False
+    if res["rc"] == 78:
+        raise HarnessError("a child was never released from a sync point (scheduler stalled)")
+    if killed and res["rc"] == 77:
+        return False  # this process was the writer killed at a sync point (os._exit(77) in the shim): no verdict on it
     if out is None:
         if res["rc"] == 0:
             raise HarnessError("child exited 0 without a result line: %s" % res["stderr"][-600:])
@@ -457,7 +457,7 @@ def check_after_state(o: Oracle, cache: str, db) -> None:
 
 
 def run_group(o: Oracle, case_dir: str, cache: str, n: int, entries: list, db=None, queries=None, data_folder=None,
-              disabled: bool = False, followup: bool = False, scheduler=None, shim=None, kills=None) -> None:
+              disabled: bool = False, followup: bool = False, scheduler=None, shim=None, kills=None) -> list:
     """n simultaneous first uses on `cache`; every child is judged; then after-state (+ optional follow-up start)."""
     db = db or _S["db"]
     queries = queries or _S["queries"]
@@ -472,13 +472,14 @@ def run_group(o: Oracle, case_dir: str, cache: str, n: int, entries: list, db=No
     for i, res in enumerate(results):
         judge(o, res, truth_answers(db, queries, cfgs[i]["entry"]), sub[0], sub[1], killed=bool((kills or {}).get(i)))
     o.label("real_start")
-    if not disabled:
+    if not disabled and not kills:  # a killed writer may leave a damaged file; the follow-up start must cope with it
         check_after_state(o, cache, db)
     if followup:
         o.label("followup")
         res = start_children(case_dir, cache, [{"queries": queries, "entry": "api"}], data_folder, False)[0]
         judge(o, res, truth_answers(db, queries, "api"), "starts_normally_afterwards", "answers_match_truth_afterwards")
         check_after_state(o, cache, db)
+    return results
 
 
 # ---------------------------------------------------------------------------------------------
@@ -613,7 +614,8 @@ PLAIN_STATES = {
     "wrong_type_data_swap": {"q": "valid", "d": ["pickle", "swap"]},
 }
 STALE_STATES = ["stale_device_touched", "stale_device_feature_removed", "stale_defaults_edited", "stale_schema_edited",
-                "stale_device_added", "stale_device_removed"]
+                "stale_device_added", "stale_device_removed", "stale_device_same_size", "stale_device_same_mtime",
+                "stale_schema_same_size", "stale_schema_same_mtime", "stale_cached_file_removed"]
 DISABLED_STATES = {"disabled_cold": {"nodir": True}, "disabled_warm": {"q": "valid", "d": "valid"},
                    "disabled_damaged": {"q": ["prefix", 0], "d": ["prefix", 0]}}
 
@@ -660,6 +662,29 @@ def _rewrite_yaml(path: str, edit) -> None:
     os.utime(path, ns=(st.st_atime_ns, st.st_mtime_ns + 2_000_000_000))
 
 
+def _retext(path: str, edit, keep_mtime: bool) -> None:
+    """Text-level edit of a data file; the new mtime is the old one (keep_mtime) or 2 s later."""
+    with open(path, encoding="utf-8") as f:
+        text = f.read()
+    new = edit(text)
+    if new == text:
+        raise HarnessError("edit of %s changed nothing" % path)
+    st = os.stat(path)
+    os.remove(path)
+    with open(path, "w", encoding="utf-8") as f:
+        f.write(new)
+    os.utime(path, ns=(st.st_atime_ns, st.st_mtime_ns + (0 if keep_mtime else 2_000_000_000)))
+
+
+def stale_device(db) -> str:
+    """The device whose file the same-size / same-mtime edits change: a plain device with two revision names of equal length."""
+    for n in db.device_names():
+        d = db.devices[n]
+        if not d.alias and any(r != d.latest and len(r) == len(d.latest) for r in d.revisions):
+            return n
+    raise HarnessError("no device with two revision names of equal length")
+
+
 def apply_stale_edit(state: str, data: str, db) -> None:
     names = db.device_names()
     aliased = {db.devices[n].alias for n in names if db.devices[n].alias}
@@ -688,6 +713,22 @@ def apply_stale_edit(state: str, data: str, db) -> None:
             f.write("alias: %s\n" % plain[0])
     elif state == "stale_device_removed":
         shutil.rmtree(os.path.join(data, "devices", [n for n in leaf if n in plain][-1]))
+    elif state in ("stale_device_same_size", "stale_device_same_mtime"):
+        n = stale_device(db)
+        d = db.devices[n]
+        other = [r for r in d.revisions if r != d.latest and len(r) == len(d.latest)][0]
+        if state == "stale_device_same_size":  # another latest revision: same size, newer mtime
+            _retext(dev_yaml(n), lambda t: t.replace("\nlatest: %s\n" % d.latest, "\nlatest: %s\n" % other, 1), keep_mtime=False)
+        else:  # as before plus a comment line: other size, the old mtime (e.g. restored by an archive tool)
+            _retext(dev_yaml(n), lambda t: t.replace("\nlatest: %s\n" % d.latest, "\nlatest: %s\n# c18\n" % other, 1), keep_mtime=True)
+    elif state in ("stale_schema_same_size", "stale_schema_same_mtime"):
+        def edit(t):
+            i = t.index("title: ") + len("title: ")
+            return t[:i] + ("C18x" if state == "stale_schema_same_size" else "C18x-") + t[i + 4:]
+        _retext(os.path.join(data, "jsonschemas", "sch_mbi.yaml"), edit, keep_mtime=state == "stale_schema_same_mtime")
+    elif state == "stale_cached_file_removed":  # a cached file disappears, another cached one changes
+        os.remove(os.path.join(data, "jsonschemas", "sch_tz.yaml"))
+        _rewrite_yaml(os.path.join(data, "jsonschemas", "sch_mbi.yaml"), lambda d: d.__setitem__("c18_marker", {"type": "string"}))
     else:
         raise HarnessError("unknown stale state %r" % state)
 
@@ -711,18 +752,19 @@ def run_state(case, o: Oracle) -> None:
         tree = os.path.join(case_dir, "tree")
         data = make_tree(tree)
         db0 = _truth_db(tree)
-        q0 = build_queries(db0, _S["tier"])
+        extra = (stale_device(db0),)
+        q0 = build_queries(db0, _S["tier"], extra)
         # warm both caches on the unedited tree (itself a cold start that must be right)
         run_group(o, case_dir, cache, 1, ["api"], db=db0, queries=q0, data_folder=data)
         if not glob.glob(os.path.join(cache, "db_quick_info_*.cache")) and not o.fails:
             raise HarnessError("warm-up start wrote no quick cache")
+        before = digest(truth_answers(db0, q0, "api"))
         apply_stale_edit(state, data, db0)
         db1 = _truth_db(tree)
         if db1.errors:
             raise HarnessError("edited tree does not compose: %s" % db1.errors[:2])
-        q1 = build_queries(db1, _S["tier"])
-        if state != "stale_device_touched" and digest(truth_answers(db1, q1, "api")) == digest(truth_answers(db0, q1, "api")) \
-                and state != "stale_schema_edited":
+        q1 = build_queries(db1, _S["tier"], extra)
+        if state != "stale_device_touched" and digest(truth_answers(db1, q1, "api")) == before:
             raise HarnessError("stale edit %s does not change any expected answer" % state)
         run_group(o, case_dir, cache, 1, [entry], db=db1, queries=q1, data_folder=data, followup=True)
         o.nontrivial(True)
@@ -772,7 +814,7 @@ def run_concurrent(case, o: Oracle) -> None:
     entries = ["api"] * n
     if n >= 4:
         entries[-1] = "cli"
-    o.label("concurrent", "N:%d" % n, "state:" + state)
+    o.label("concurrent", "N:%d" % n, "state:" + state, *["entry:" + e for e in set(entries)])
     run_group(o, case_dir, cache, n, entries, followup=True)
     o.nontrivial(True)
     o.key(("concurrent", state, n, case.get("round", 0)))
@@ -782,43 +824,38 @@ def run_concurrent(case, o: Oracle) -> None:
 
 
 # ---------------------------------------------------------------------------------------------
-# part: schedules (Hypothesis-drawn interleavings over the shim's sync points, incl. kill points)
+# parts: rendezvous / kills / schedules (interleavings enforced by the harness-side shim, see vf/gen/c18_child.py)
 # ---------------------------------------------------------------------------------------------
 SYNC_POINTS = ["exists", "locked", "load", "truncated", "mid_dump", "dumped", "remove"]
 SCHED_STATES = ["cold", "both_empty", "quick_frame_boundary", "data_truncated", "both_truncated", "old_version_both", "warm"]
 
 
-def _schedule_strategy():
-    from hypothesis import strategies as st
-
-    @st.composite
-    def build(draw):
-        n = draw(st.integers(2, 4))
-        state = draw(st.sampled_from(SCHED_STATES))
-        steps = draw(st.lists(st.integers(0, n - 1), min_size=4, max_size=48))
-        kill = None
-        if draw(st.integers(0, 2)) == 0:
-            kill = {"proc": draw(st.integers(0, n - 1)), "point": draw(st.sampled_from(["locked", "truncated", "mid_dump", "dumped", "remove", "load"])),
-                    "file": draw(st.sampled_from(["q", "d"])), "nth": draw(st.integers(1, 2))}
-        return {"n": n, "state": state, "steps": steps, "kill": kill}
-
-    return build()
-
-
 class Scheduler:
-    """Lets exactly one parked process advance at a time, in the order given by `steps`."""
+    """Lets exactly one parked process advance at a time.
 
-    def __init__(self, shim_dir: str, n: int, steps: list):
-        self.dir, self.n, self.steps = shim_dir, n, steps
+    program: list of ops
+      ["step", i]      release process i from its sync point once, wait until it parks again / exits / blocks on a lock
+      ["until", i, k]  advance process i until it is parked at its k-th *unlocked* sync point (exists/remove reached while
+                       it holds no lock - the places where another process can slip in), or exits / blocks
+      ["finish", i]    advance process i until it exits or blocks
+    Afterwards every process is released for good (file `free`).
+    """
+
+    MAX_STEPS = 400
+
+    def __init__(self, shim_dir: str, n: int, program: list):
+        self.dir, self.n, self.program = shim_dir, n, program
         self.released = [0] * n  # number of the last sync point each process was released from
         self.trace: list = []
 
     def _events(self, i: int) -> list:
         try:
             with open(os.path.join(self.dir, "%d.log" % i), encoding="utf-8") as f:
-                return [ln.split() for ln in f.read().splitlines() if ln.count(" ") == 3]
+                text = f.read()
         except FileNotFoundError:
             return []
+        lines = text.split("\n")[:-1]  # a line still being written has no newline yet
+        return [ln.split() for ln in lines if len(ln.split()) == 4]
 
     def _status(self, i: int, procs) -> tuple:
         """('parked', k, point, kind) | ('acquiring', kind) | ('running',) | ('exited',)"""
@@ -833,18 +870,26 @@ class Scheduler:
             return ("exited",)
         return ("running",)
 
-    def _lock_holders(self) -> dict:
-        held = {}
-        for j in range(self.n):
-            cur = None
-            for k, typ, what, kind in self._events(j):
-                if what == "locked":
-                    cur = kind
-                elif what == "unlocked":
-                    cur = None
-            if cur:
-                held[j] = cur
-        return held
+    def _lock_state(self, j: int):
+        cur = None
+        for k, typ, what, kind in self._events(j):
+            if what == "locked":
+                cur = kind
+            elif what == "unlocked":
+                cur = None
+        return cur
+
+    def _unlocked_parks(self, i: int) -> int:
+        """How many exists/remove sync points process i has reached while holding no lock."""
+        cur, n = None, 0
+        for k, typ, what, kind in self._events(i):
+            if what == "locked":
+                cur = kind
+            elif what == "unlocked":
+                cur = None
+            elif typ == "P" and what in ("exists", "remove") and cur is None:
+                n += 1
+        return n
 
     def _settle(self, i: int, procs, t_end: float) -> tuple:
         """Wait until process i is parked, exited, or blocked on a lock held by a parked process."""
@@ -853,49 +898,128 @@ class Scheduler:
             if st[0] in ("parked", "exited"):
                 return st
             if st[0] == "acquiring":
-                holders = [j for j, kind in self._lock_holders().items() if j != i and kind == st[1]]
-                if holders and all(self._status(j, procs)[0] in ("parked", "exited") for j in holders):
+                holders = [j for j in range(self.n) if j != i and procs[j].poll() is None and self._lock_state(j) == st[1]]
+                if holders and all(self._status(j, procs)[0] == "parked" for j in holders):
                     time.sleep(0.02)  # let a just-released lock be taken
-                    st2 = self._status(i, procs)
-                    if st2[0] == "acquiring":
+                    if self._status(i, procs)[0] == "acquiring":
                         return ("blocked", st[1])
             time.sleep(0.002)
         return ("timeout",)
 
+    def _step(self, i: int, procs, t_end: float) -> tuple:
+        st = self._settle(i, procs, t_end)
+        if st[0] != "parked":
+            self.trace.append("%d:%s" % (i, st[0]))
+            return st
+        self.trace.append("%d:%s.%s" % (i, st[2], st[3]))
+        self.released[i] = st[1]
+        open(os.path.join(self.dir, "%d.go.%d" % (i, st[1])), "w").close()
+        return self._settle(i, procs, t_end)
+
     def __call__(self, procs, t_end: float) -> None:
-        t_end = min(t_end, time.time() + 240)
+        t_end = min(t_end, time.time() + 300)
         for i in range(self.n):
             self._settle(i, procs, t_end)
-        for i in self.steps:
-            st = self._settle(i, procs, t_end)
-            if st[0] != "parked":
-                self.trace.append("%d:%s" % (i, st[0]))
+        for op in self.program:
+            i = int(op[1])
+            if i >= self.n:
                 continue
-            self.trace.append("%d:%s.%s" % (i, st[2], st[3]))
-            self.released[i] = st[1]
-            open(os.path.join(self.dir, "%d.go.%d" % (i, st[1])), "w").close()
-            self._settle(i, procs, t_end)
+            if op[0] == "step":
+                self._step(i, procs, t_end)
+            elif op[0] == "until":
+                for _ in range(self.MAX_STEPS):
+                    st = self._settle(i, procs, t_end)
+                    if st[0] != "parked" or self._unlocked_parks(i) >= int(op[2]):
+                        self.trace.append("%d:=%s" % (i, ".".join(str(x) for x in st[2:4]) if st[0] == "parked" else st[0]))
+                        break
+                    self._step(i, procs, t_end)
+            elif op[0] == "finish":
+                for _ in range(self.MAX_STEPS):
+                    if self._step(i, procs, t_end)[0] != "parked":
+                        break
         open(os.path.join(self.dir, "free"), "w").close()
 
 
+def _schedule_strategy():
+    from hypothesis import strategies as st
+
+    @st.composite
+    def build(draw):
+        n = draw(st.integers(2, 4))
+        state = draw(st.sampled_from(SCHED_STATES))
+        # bursts: (process, how many sync points it advances), then whatever is left runs freely
+        bursts = draw(st.lists(st.tuples(st.integers(0, n - 1), st.integers(1, 9)), min_size=2, max_size=12))
+        steps = [p for p, k in bursts for _ in range(k)]
+        kill = None
+        if draw(st.integers(0, 2)) == 0:
+            kill = {"proc": draw(st.integers(0, n - 1)), "point": draw(st.sampled_from(["locked", "truncated", "mid_dump", "dumped", "remove", "load"])),
+                    "file": draw(st.sampled_from(["q", "d"])), "nth": draw(st.integers(1, 2))}
+        return {"n": n, "state": state, "steps": steps, "kill": kill}
+
+    return build()
+
+
+def _rendezvous_items(tier: str) -> list:
+    items = []
+    if tier == "quick":
+        states, top = ["data_truncated", "old_version_both"], 5
+    else:
+        states, top = [s for s in SCHED_STATES if s != "warm"], 9
+    for s in states:
+        for a in range(1, top + 1):
+            for b in range(1, top + 1):
+                orders = [[0, 1]] if tier == "quick" else [[0, 1], [1, 0]]
+                for order in orders:
+                    prog = [["until", 0, a], ["until", 1, b]] + [["step", i] for i in order] + [["finish", i] for i in order]
+                    items.append({"n": 2, "state": s, "program": prog, "kill": None})
+    if tier != "quick":
+        for s in ("data_truncated", "both_truncated", "cold"):
+            for a in range(1, 5):
+                for b in range(1, 5):
+                    for c in range(1, 5):
+                        prog = [["until", 0, a], ["until", 1, b], ["until", 2, c], ["step", 2], ["step", 0], ["step", 1],
+                                ["finish", 2], ["finish", 0], ["finish", 1]]
+                        items.append({"n": 3, "state": s, "program": prog, "kill": None})
+    return items
+
+
+def _kill_items(tier: str) -> list:
+    """A single writer killed at its k-th sync point (whatever that point is), then a normal start."""
+    items = []
+    states = ["cold"] if tier == "quick" else ["cold", "both_truncated", "old_version_both", "quick_frame_boundary", "data_truncated"]
+    for s in states:
+        for k in range(1, 25 if tier == "quick" else 41):
+            items.append({"n": 1, "state": s, "program": [], "kill": {"proc": 0, "point": "#", "file": "", "nth": k}})
+    return items
+
+
 def run_schedule(case, o: Oracle) -> None:
-    n, state, steps, kill = int(case["n"]), case["state"], [int(s) for s in case["steps"]], case.get("kill")
+    n, state, kill = int(case["n"]), case["state"], case.get("kill")
+    program = [list(op) for op in case["program"]] if case.get("program") is not None else [["step", int(s)] for s in case["steps"]]
     case_dir = new_case_dir("sched-%s-%d" % (state, n))
     cache = os.path.join(case_dir, "cache")
     shim_dir = os.path.join(case_dir, "shim")
     os.makedirs(shim_dir)
     prepare_cache(cache, _conc_specs()[state])
     kills = {int(kill["proc"]): [kill["point"], kill["file"], int(kill["nth"])]} if kill else None
-    sched = Scheduler(shim_dir, n, steps)
-    o.label("schedule", "concurrent", "N:%d" % n, "state:" + state)
-    run_group(o, case_dir, cache, n, ["api"], followup=True, scheduler=sched, shim=shim_dir, kills=None if not kill else kills)
-    points = sorted({t.split(":", 1)[1] for t in sched.trace if "." in t})
-    for p in points:
+    sched = Scheduler(shim_dir, n, program)
+    o.label("schedule", "N:%d" % n, "state:" + state)
+    if n >= 2:
+        o.label("concurrent")
+    results = run_group(o, case_dir, cache, n, ["api"], followup=True, scheduler=sched, shim=shim_dir, kills=kills)
+    points = set()
+    for i in range(n):
+        for k, typ, what, kind in sched._events(i):
+            if typ in ("P", "K"):
+                points.add("%s.%s" % (what, kind))
+            if typ == "K":
+                o.label("kill", "killed_at:%s.%s" % (what, kind))
+    for p in sorted(points):
         o.label("sync:" + p)
-    if kill:
-        o.label("kill", "kill:%s.%s" % (kill["point"], kill["file"]))
+    if kill and not any(r["rc"] == 77 for r in results):
+        o.label("kill_point_not_reached")
     o.nontrivial(True)
-    o.sample({"processes": n, "state": state, "kill": kill, "trace": sched.trace})
+    o.sample({"processes": n, "state": state, "kill": kill, "trace": sched.trace[:60]})
     o.artifact("trace", sched.trace)
     if not os.environ.get("VERIF_KEEP_WORK"):
         shutil.rmtree(case_dir, ignore_errors=True)
@@ -945,7 +1069,10 @@ def parts(ctx):
         EnumPart("classify", lambda tier: len(ci), lambda tier, i: ci[i], run_classify),
     ]
     if co:
-        out.append(HypPart("schedules", _schedule_strategy, run_schedule, {"quick": 24, "thorough": 1500}, max_shards=8))
+        rv, ki = _rendezvous_items(ctx.tier), _kill_items(ctx.tier)
+        out.insert(1, EnumPart("rendezvous", lambda tier: len(rv), lambda tier, i: rv[i], run_schedule))
+        out.insert(2, EnumPart("kills", lambda tier: len(ki), lambda tier, i: ki[i], run_schedule))
+        out.append(HypPart("schedules", _schedule_strategy, run_schedule, {"quick": 16, "thorough": 1500}, max_shards=8))
     return [p for p in out if isinstance(p, HypPart) or p.count(ctx.tier) > 0]
 
 
